@@ -532,6 +532,12 @@ def _api_setup():
     w("A/main_missing_h.yaml", "top: a.txt\ng: ../B/g_badh.yaml\n")
     w("B/g_badh.yaml", "p: data/x.txt\nh: ../C/h_bad.yaml\n")
     w("C/h_bad.yaml", "q: nope.txt\n")
+    # the entry config file reached through a symbolic link whose target lives in another directory: relative paths follow the
+    # directory of the file the user named (A/), not the directory of the link's target (store/), where decoys of the same name sit
+    os.makedirs(os.path.join(root, "store"))
+    w("store/main_target.yaml", "top: a.txt\ng: ../B/g.yaml\n")
+    w("store/a.txt", "decoy")
+    os.symlink("../store/main_target.yaml", os.path.join(root, "A", "main_link.yaml"))
     _API["root"] = root
     return _API
 
@@ -568,7 +574,7 @@ def _api_once(cwd_choice, entry, variant):
     cwd = {"root": root, "A": root + "/A", "B": root + "/B", "C": root + "/C", "elsewhere": root + "/elsewhere"}[cwd_choice]
     if variant.startswith("list_"):
         return _api_list_once(root, cwd, entry, variant)
-    main = {"ok": "main.yaml", "missing_top": "main_missing_top.yaml", "missing_g": "main_missing_g.yaml", "missing_h": "main_missing_h.yaml"}[variant]
+    main = {"ok": "main.yaml", "ok_symlink": "main_link.yaml", "missing_top": "main_missing_top.yaml", "missing_g": "main_missing_g.yaml", "missing_h": "main_missing_h.yaml"}[variant]
     main_abs = os.path.join(root, "A", main)
     main_given = os.path.relpath(main_abs, cwd) if entry.endswith("rel") else main_abs
     parser = _api_parser()
@@ -589,7 +595,7 @@ def _api_once(cwd_choice, entry, variant):
     S.note("fails" if failed else "parses")
     if after != cwd:
         return Fail("api:cwd-not-restored", cwd=cwd, after=after, failed=failed)
-    if failed != (variant != "ok"):
+    if failed != (variant not in ("ok", "ok_symlink")):
         return Fail("api:wrong-accept-reject", variant=variant, failed=failed)
     if not failed:
         want = {"top": root + "/A/a.txt", "g.p": root + "/B/data/x.txt", "g.h.q": root + "/C/y.txt"}
@@ -651,7 +657,7 @@ def _api_list_once(root, cwd, entry, variant):
 
 API_CWDS = ["root", "A", "B", "C", "elsewhere"]
 API_ENTRIES = ["parse_path_abs", "parse_path_rel", "cfg_abs", "cfg_rel"]
-API_VARIANTS = ["ok", "missing_top", "missing_g", "missing_h", "list_yaml", "list_json", "list_txt", "list_in_config"]
+API_VARIANTS = ["ok", "ok_symlink", "missing_top", "missing_g", "missing_h", "list_yaml", "list_json", "list_txt", "list_in_config"]
 
 
 def api():
